@@ -302,4 +302,80 @@ def sleCall (st : SleState) (c : SleIn α) : Except SleErr (SleState × Bool × 
 
 end generic
 
+/-! ### which material data the solver of a stream is bound to
+
+`MultiStream.reset_cache` builds `VLECache/LLECache/SLECache(self._imol, …)`; `Cache.retrieve`
+(thermosteam/utils/cache.py) loads the solver from `Cache.args` on first use and afterwards returns
+the loaded one WITHOUT looking at `args` again; the `phases` setter replaces `self._imol` by a new
+indexer and calls `reset_cache()` when the set of phases changes.  Identities (`is`) are ids. -/
+
+/-- a `Cache` object: `args` (the indexer it would load with) and `value` (the indexer the loaded
+solver is bound to, if one is loaded) -/
+structure CacheM where
+  args : Nat
+  value : Option Nat
+  deriving DecidableEq, Repr
+
+inductive Kind where
+  | vle | lle | sle
+  deriving DecidableEq, Repr
+
+structure StreamM where
+  /-- identity of the stream's material indexer -/
+  imol : Nat
+  /-- next unused identity -/
+  next : Nat
+  vle : CacheM
+  lle : CacheM
+  sle : CacheM
+  deriving DecidableEq, Repr
+
+def StreamM.init : StreamM :=
+  { imol := 0, next := 1, vle := ⟨0, none⟩, lle := ⟨0, none⟩, sle := ⟨0, none⟩ }
+
+def StreamM.cache (m : StreamM) : Kind → CacheM
+  | .vle => m.vle | .lle => m.lle | .sle => m.sle
+
+/-- `reset_cache()`: three new, unloaded caches for the current indexer -/
+def StreamM.resetCache (m : StreamM) : StreamM :=
+  { m with vle := ⟨m.imol, none⟩, lle := ⟨m.imol, none⟩, sle := ⟨m.imol, none⟩ }
+
+/-- `ms.phases = …`: nothing happens for the same set of phases; otherwise a new indexer and
+`reset_cache()` -/
+def StreamM.setPhases (m : StreamM) (changes : Bool) : StreamM :=
+  if changes then ({ m with imol := m.next, next := m.next + 1 } : StreamM).resetCache else m
+
+def CacheM.retrieve (c : CacheM) : CacheM × Nat :=
+  match c.value with
+  | some b => (c, b)
+  | none => ({ c with value := some c.args }, c.args)
+
+/-- `cache.retrieve()`: the new stream state and the indexer the returned solver works on -/
+def StreamM.retrieve (m : StreamM) : Kind → StreamM × Nat
+  | .vle => let r := m.vle.retrieve; ({ m with vle := r.1 }, r.2)
+  | .lle => let r := m.lle.retrieve; ({ m with lle := r.1 }, r.2)
+  | .sle => let r := m.sle.retrieve; ({ m with sle := r.1 }, r.2)
+
+inductive SOp where
+  | setPhases (changes : Bool)
+  | retrieve (k : Kind)
+  | resetCache
+  deriving DecidableEq, Repr
+
+def StreamM.step (m : StreamM) : SOp → StreamM
+  | .setPhases c => m.setPhases c
+  | .retrieve k => (m.retrieve k).1
+  | .resetCache => m.resetCache
+
+def StreamM.run (m : StreamM) (ops : List SOp) : StreamM := ops.foldl StreamM.step m
+
+/-- a `phases` setter that keeps the cache objects and only re-points their `args` (NOT what the
+code does; kept to show why `reset_cache()` is needed, Props/C15 `repoint_counterexample`) -/
+def StreamM.setPhasesRepoint (m : StreamM) (changes : Bool) : StreamM :=
+  if changes then
+    { m with imol := m.next, next := m.next + 1,
+             vle := { m.vle with args := m.next }, lle := { m.lle with args := m.next },
+             sle := { m.sle with args := m.next } }
+  else m
+
 end ThermoVerif.LLESLE
